@@ -106,7 +106,10 @@ class RefDEVS:
         else:
             raise ValueError("unknown action %r" % (action,))
         if out is not None:
-            self.requests.append((owner, idx, out))
+            # (what a request made after the handler's own cleanup() returns is not
+            # specified: recorded as not judged)
+            self.requests.append((owner, idx, "raise" if getattr(self, "cleaned_by_handler", False)
+                                  else out))
         return None
 
     def _cmd_from_handler(self, name, args):
@@ -124,6 +127,13 @@ class RefDEVS:
                     self.pause_requested = True
                 return OK
             return REFUSED
+        if name == "cleanup":
+            # the run is given up after this handler (whose remaining requests are
+            # still accepted); which run state is reported afterwards is not
+            # specified, the replication state is NOT_INITIALIZED, the run thread ends
+            self.cleaned_by_handler = True
+            self.pause_requested = True
+            return OK
         if name == "end_replication":
             self.ended_by_handler = True
             self.pending.clear()
@@ -142,6 +152,7 @@ class RefDEVS:
         self.pending = []
         self.handle = {}
         self.ended_by_handler = False
+        self.cleaned_by_handler = False
         self.obs = []
         self.warm_done = False
         self.tc_done = set()
@@ -163,7 +174,13 @@ class RefDEVS:
             self.pending.append(key)
         return OK
 
+    def _cleaned(self):
+        self.run_state = NOT_INITIALIZED
+        self.rep_state = NOT_INITIALIZED
+        self.worker_alive = False
+
     def cleanup(self):
+        self.cleaned_by_handler = False
         self.run_state = NOT_INITIALIZED
         self.rep_state = NOT_INITIALIZED
         self.worker_alive = False
@@ -246,6 +263,9 @@ class RefDEVS:
         self.rep_state = STARTED
         self.pause_requested = False
         while True:
+            if self.cleaned_by_handler:
+                self._cleaned()
+                return OK
             if self.ended_by_handler:
                 self._end()
                 return OK
@@ -280,6 +300,9 @@ class RefDEVS:
         if nxt is not None and nxt[0] <= self.end:
             self.last_step_failed = self._execute(nxt, True)    # step() always announces
         self.step_boundary = nxt is None or nxt[0] > self.end
+        if self.cleaned_by_handler:
+            self._cleaned()
+            return OK
         if self.ended_by_handler:
             self._end()
             return OK
